@@ -1,7 +1,7 @@
 """C15pcap (sub-check of C15: classic pcap reader and snoop reader on hostile input)"""
 CONF = {
     'coq_sample': 20,   # cases re-evaluated inside Coq by vm_compute against the extracted runner's output
-    'interesting': ['mut-magic', 'mut-version', 'mut-snaplen', 'mut-linktype', 'mut-caplen', 'mut-len', 'mut-reclen', 'mut-pad',
+    'interesting': ['setsnaplen-between-reads', 'mut-magic', 'mut-version', 'mut-snaplen', 'mut-linktype', 'mut-caplen', 'mut-len', 'mut-reclen', 'mut-pad',
                     'mut-ts', 'short-read-chunking', 'injected-error', 'gzip', 'garbage', 'garbage-records', 'bitflip', 'splice', 'truncated'],
     'rule': 'Valid pcap (both byte orders, micro/nano) and snoop files from the C14 generator; every header and record field forced to boundary values (0,1,max, sign boundaries, +-1 around snaplen / capture length / 4096 / record length / bytes remaining), pairs of fields, random garbage, bit flips, splices; delivered whole, in random / one-byte / every-single-split chunkings (with empty reads, with the final error delivered together with data), with an injected read error at every position of small files, and gzip-wrapped (oracle side only). Header and every read result (class, timestamp, lengths, data) are compared with the model; the oracle on the implementation checks no panic, no hang (20 s), allocation per call <= bytes present + declared snap length (snoop: 4096) + 64 KiB (TotalAlloc deltas), shape, termination within bytes/16+2 (snoop /24) calls, chunking invariance and that a read error surfaces as that error.',
     'shrink_keep_first': 5,
